@@ -21,14 +21,14 @@ theorem nameIdx_range (names : List String) (off : Int) (n : String) (r : Int)
     obtain ⟨hi, _, _⟩ := List.findIdx?_eq_some_iff_getElem.mp hf
     omega
 
-def Block.names (b : Block) : List String := b.nodes.map Prod.fst
-
 def Block.baseNodes (b : Block) (atomOff residOff cgOff : Int) : List (Int × Attrs) :=
   enumFrom atomOff (b.nodes.map (fun p => ((0 : Int), p.2.shift residOff cgOff)))
 
 /-- the molecule before the edges are added -/
 def Block.base (b : Block) (atomOff residOff cgOff : Int) (inters : List (String × Inter)) : Mol :=
-  { nodes := b.baseNodes atomOff residOff cgOff, inters := inters, cites := b.cites, nrexcl := b.nrexcl }
+  { nodes := b.baseNodes atomOff residOff cgOff, inters := inters, cites := b.cites, nrexcl := b.nrexcl,
+    eattr := blockEAttr b.names atomOff b.eattr, ff := b.ff,
+    logs := b.logs.foldl (fun acc le => extendLog acc le.1 le.2 []) [] }
 
 theorem toMolecule_eq (b : Block) (ao ro co : Int) (m : Mol) (h : b.toMolecule ao ro co = some m) :
     ∃ inters edges, b.inters.mapM (blockInter b.names ao) = some inters ∧
@@ -59,7 +59,7 @@ theorem base_inv (b : Block) (ao ro co : Int) (inters : List (String × Inter))
   · intro ti hti a ha
     obtain ⟨x, _, hx⟩ := mapM_option_mem _ _ _ hi ti hti
     unfold blockInter at hx
-    cases hm : x.2.1.mapM (nameIdx b.names ao) with
+    cases hm : x.atoms.mapM (nameIdx b.names ao) with
     | none => rw [hm] at hx; cases hx
     | some at' =>
       rw [hm] at hx; cases hx
